@@ -1,11 +1,15 @@
 /-
 Document-level float model: the part of `block_container_layout` (layout/block.py) that a sequence of
-block-level floats, paragraphs of one-word lines, BFC roots and plain blocks goes through, all with
-zero vertical margins (so no margin collapsing is involved):
+block-level floats, paragraphs of one-word lines (with floats met inside the lines), BFC roots and
+plain blocks goes through; the vertical margins of in-flow siblings collapse (`collapse_margin` over the
+adjoining margins; the container has a top padding, so nothing collapses through it):
 
   float      → `_out_of_flow_layout` → `float_layout` (clearance, `find_float_position`, append)
   paragraph  → `block_level_layout` (clearance) → one `avoid_collisions(outer=False)` per line box
-               (`get_next_linebox`: width = the word, height = the strut = font size)
+               (`get_next_linebox`: width = the word, height = the strut = font size); floats met in the
+               line after the word → `_out_of_flow_layout` of layout/inline.py (placed at once at the
+               line's top when they fit in what is left of the line and no float is waiting, otherwise
+               at the line's bottom, in order)
   BFC root   → `block_level_layout` (clearance) → `block_level_width` → `avoid_collisions(outer=False)`
   image      → `block_level_layout` (clearance) → `block_replaced_box_layout` → `avoid_collisions(outer=False)`
   block      → `block_level_layout` (clearance)
@@ -17,86 +21,173 @@ import WpModel.Model.Floats
 
 namespace Wp.Floats
 
+/-- One line of a paragraph: the width of its (single) word and the floats met in the line after
+that word (`<span style="float:…">`, without paddings or borders: `bw` is their content width). -/
+structure LineSpec where
+  w : Rat
+  floats : List ABox
+  deriving Repr, Inhabited
+
 inductive Item where
   | float (b : ABox)                                   -- `px`, `py` are set by the flow
-  | para (clear : Clear) (fs : Rat) (words : List Rat)  -- one line per word, widths given
-  | bfc (clear : Clear) (width : Len) (h ml mr : Rat)
-  | block (clear : Clear) (h : Rat)
+  | para (clear : Clear) (fs : Rat) (lines : List LineSpec) (mt mb : Rat)
+  | bfc (clear : Clear) (width : Len) (h ml mr mt mb : Rat)
+  | block (clear : Clear) (h mt mb : Rat)
   | replaced (kind : Kind) (clear : Clear) (w h ml mr : Rat)  -- block-level image (`.replaced`) or table (`.tableWrapper`)
+  deriving Repr, Inhabited
+
+/-- A placed line: `(position_x, position_y, width)` and the margin boxes of its floats, in document order. -/
+structure PlacedLine where
+  x : Rat
+  y : Rat
+  w : Rat
+  floats : List (Rat × Rat × Rat × Rat)
   deriving Repr, Inhabited
 
 inductive Placed where
   | float (x y mw mh : Rat)
-  | para (lines : List (Rat × Rat × Rat))   -- (position_x, position_y, width)
+  | para (lines : List PlacedLine)
   | bfc (x y w h : Rat)                     -- border box
   | block (y : Rat)
   | replaced (x y w h : Rat)                -- border box
   deriving Repr, Inhabited
 
-/-- `block_level_layout`: `position_y` after clearance (margins are 0). -/
-def clearedY (shapes : List Shape) (c : Clear) (y : Rat) : Rat :=
-  match getClearance shapes c y 0 with
-  | some cl => y + cl
-  | none => y
+/-- `collapse_margin(adjoining_margins)` (layout/block.py): `max(positives ∪ {0}) + min(negatives ∪ {0})`. -/
+def collapseMargin (ms : List Rat) : Rat :=
+  maxList 0 (ms.filter (fun m => decide (m ≥ 0))) + minList 0 (ms.filter (fun m => decide (m ≤ 0)))
+
+/-- `block_level_layout`: the top border edge of an in-flow block whose parent's `position_y` is `y`
+and whose top margin collapses with the adjoining margins to `cm`:
+`top_border_edge = position_y + collapsed_margin + clearance` when there is clearance.
+The flag tells whether clearance was applied (the adjoining margins are then forgotten). -/
+def clearedTop (shapes : List Shape) (c : Clear) (y cm : Rat) : Rat × Bool :=
+  match getClearance shapes c y cm with
+  | some cl => (y + cm + cl, true)
+  | none => (y + cm, false)
+
+/-- `_out_of_flow_layout` of layout/inline.py, first pass over the floats met in a line: a float whose
+width exceeds what is left of the line (`max_x - position_x`), or that comes after a float already
+waiting, waits for the end of the line; the others are laid out at once at the line's top
+(`float_layout`), and `max_x` shrinks by their margin width. -/
+def inlinePass1 (cb : CB) (lineY : Rat) :
+    List Shape → Rat → Bool → List ABox → Except PyErr (List Shape × List (ABox × Option (Rat × Rat × Rat × Rat)))
+  | shapes, _, _, [] => .ok (shapes, [])
+  | shapes, rem, waiting, b :: bs =>
+    if decide (b.bw > rem) || waiting then
+      match inlinePass1 cb lineY shapes rem true bs with
+      | .error e => .error e
+      | .ok (shapes', out) => .ok (shapes', (b, none) :: out)
+    else
+      match floatPlace shapes { b with px := cb.cx, py := lineY } cb with
+      | .error e => .error e
+      | .ok (b', shapes1) =>
+        match inlinePass1 cb lineY shapes1 (rem - b.marginWidth) false bs with
+        | .error e => .error e
+        | .ok (shapes', out) => .ok (shapes', (b, some (b'.px, b'.py, b'.marginWidth, b'.marginHeight)) :: out)
+
+/-- `get_next_linebox`, end of the line: the waiting floats are laid out, in order, at the line's bottom. -/
+def inlinePass2 (cb : CB) (lineBottom : Rat) :
+    List Shape → List (ABox × Option (Rat × Rat × Rat × Rat)) → Except PyErr (List Shape × List (Rat × Rat × Rat × Rat))
+  | shapes, [] => .ok (shapes, [])
+  | shapes, (_, some r) :: rest =>
+    match inlinePass2 cb lineBottom shapes rest with
+    | .error e => .error e
+    | .ok (shapes', out) => .ok (shapes', r :: out)
+  | shapes, (b, none) :: rest =>
+    match floatPlace shapes { b with px := cb.cx, py := lineBottom } cb with
+    | .error e => .error e
+    | .ok (b', shapes1) =>
+      match inlinePass2 cb lineBottom shapes1 rest with
+      | .error e => .error e
+      | .ok (shapes', out) => .ok (shapes', (b'.px, b'.py, b'.marginWidth, b'.marginHeight) :: out)
 
 /-- The line boxes of a paragraph starting at `y`. -/
-def layoutLines (shapes : List Shape) (cb : CB) (fs : Rat) :
-    List Rat → Rat → Except PyErr (List (Rat × Rat × Rat) × Rat)
-  | [], y => .ok ([], y)
-  | w :: ws, y =>
-    let line : ABox := ⟨cb.cx, y, 0, 0, 0, 0, w, fs, .none, .none, .line⟩
+def layoutLines (cb : CB) (fs : Rat) :
+    List Shape → List LineSpec → Rat → Except PyErr (List Shape × List PlacedLine × Rat)
+  | shapes, [], y => .ok (shapes, [], y)
+  | shapes, l :: ls, y =>
+    let line : ABox := ⟨cb.cx, y, 0, 0, 0, 0, l.w, fs, .none, .none, .line⟩
     match avoidCollisions shapes line cb false with
     | .error e => .error e
     | .ok p =>
-      let x := if cb.rtl then p.x - w else p.x
-      match layoutLines shapes cb fs ws (p.y + fs) with
+      let x := if cb.rtl then p.x - l.w else p.x
+      match inlinePass1 cb p.y shapes (p.avail - l.w) false l.floats with
       | .error e => .error e
-      | .ok (rest, y') => .ok ((x, p.y, w) :: rest, y')
+      | .ok (shapes1, marks0) =>
+        -- `line_box_verticality`: every float placed on the line is moved to the line's top
+        -- (`dy = min_y - subtree.position_y`), wherever `find_float_position` had put it; the box is the
+        -- one stored in `excluded_shapes`, so the shape moves too (known finding
+        -- inline-float-snapped-to-line-top)
+        let shapes1 := shapes1.take shapes.length ++
+          (shapes1.drop shapes.length).map (fun s => { s with y := p.y })
+        let marks := marks0.map (fun m => (m.1, m.2.map (fun r => (r.1, p.y, r.2.2.1, r.2.2.2))))
+        match inlinePass2 cb (p.y + fs) shapes1 marks with
+        | .error e => .error e
+        | .ok (shapes2, rects) =>
+          match layoutLines cb fs shapes2 ls (p.y + fs) with
+          | .error e => .error e
+          | .ok (shapes3, rest, y') => .ok (shapes3, ⟨x, p.y, l.w, rects⟩ :: rest, y')
 
-/-- One child of the container: new shapes, new `position_y`, what was placed. -/
-def flowStep (cb : CB) (shapes : List Shape) (y : Rat) : Item → Except PyErr (List Shape × Rat × Placed)
+/-- State of the flow: floats so far, the parent's `position_y`, the adjoining margins. -/
+structure FlowState where
+  shapes : List Shape
+  y : Rat
+  adj : List Rat
+  deriving Repr, Inhabited
+
+/-- One child of the container: new state, what was placed. -/
+def flowStep (cb : CB) (st : FlowState) : Item → Except PyErr (FlowState × Placed)
   | .float b =>
-    match floatPlace shapes { b with px := cb.cx, py := y } cb with
+    -- `_out_of_flow_layout`: `child.position_y += collapse_margin(adjoining_margins)`
+    match floatPlace st.shapes { b with px := cb.cx, py := st.y + collapseMargin st.adj } cb with
     | .error e => .error e
-    | .ok (b', shapes') => .ok (shapes', y, .float b'.px b'.py b'.marginWidth b'.marginHeight)
-  | .para c fs words =>
-    match layoutLines shapes cb fs words (clearedY shapes c y) with
+    | .ok (b', shapes') =>
+      .ok ({ st with shapes := shapes' }, .float b'.px b'.py b'.marginWidth b'.marginHeight)
+  | .para c fs lines mt mb =>
+    let top := clearedTop st.shapes c st.y (collapseMargin (st.adj ++ [mt]))
+    match layoutLines cb fs st.shapes lines top.1 with
     | .error e => .error e
-    | .ok (lines, y') => .ok (shapes, y', .para lines)
-  | .bfc c width h ml mr =>
-    let y0 := clearedY shapes c y
+    | .ok (shapes', placed, y') => .ok (⟨shapes', y', [mb]⟩, .para placed)
+  | .bfc c width h ml mr mt mb =>
+    let top := clearedTop st.shapes c st.y (collapseMargin (st.adj ++ [mt]))
     -- block_level_width: auto width fills the containing block
     let w := match width with
       | some w => w
       | none => cb.w - (ml + mr)
-    let box : ABox := ⟨cb.cx, y0, 0, 0, ml, mr, w, h, .none, c, .bfc⟩
-    match avoidCollisions shapes box cb false with
+    let box : ABox := ⟨cb.cx, top.1 - mt, mt, mb, ml, mr, w, h, .none, c, .bfc⟩
+    match avoidCollisions st.shapes box cb false with
     | .error e => .error e
     | .ok p =>
-      -- `_in_flow_layout`: a box of height 0 without paddings / borders "collapses through": the parent's
-      -- `position_y` does not advance, unless the box has clearance (then it restarts below the box)
-      let y' := if h = 0 && (getClearance shapes c y 0).isNone then y else p.y + h
-      .ok (shapes, y', .bfc (p.x + ml) p.y w h)
-  | .block c h =>
-    let y0 := clearedY shapes c y
-    .ok (shapes, y0 + h, .block y0)
+      -- `_in_flow_layout`: a box of height 0 without paddings / borders / margins "collapses through":
+      -- the parent's `position_y` does not advance, unless the box has clearance (then it restarts below
+      -- the box).  A BFC root has already consumed the adjoining margins for its own position, so the
+      -- parent continues with `[margin_bottom]` only (the margin of the previous sibling is forgotten).
+      let st' : FlowState := if h = 0 && !top.2 then ⟨st.shapes, st.y, [mb]⟩ else ⟨st.shapes, p.y + mt + h, [mb]⟩
+      .ok (st', .bfc (p.x + ml) (p.y + mt) w h)
+  | .block c h mt mb =>
+    let top := clearedTop st.shapes c st.y (collapseMargin (st.adj ++ [mt]))
+    let st' : FlowState := if h = 0 && !top.2 then st else ⟨st.shapes, top.1 + h, [mb]⟩
+    .ok (st', .block top.1)
   | .replaced kind c w h ml mr =>
     -- `block_replaced_box_layout` / `block_box_layout` of a table wrapper: positioned by
-    -- `avoid_collisions(outer=False)`; never collapses through
-    let y0 := clearedY shapes c y
-    let box : ABox := ⟨cb.cx, y0, 0, 0, ml, mr, w, h, .none, c, kind⟩
-    match avoidCollisions shapes box cb false with
+    -- `avoid_collisions(outer=False)`; never collapses through; no vertical margins here
+    let top := clearedTop st.shapes c st.y (collapseMargin (st.adj ++ [0]))
+    let box : ABox := ⟨cb.cx, top.1, 0, 0, ml, mr, w, h, .none, c, kind⟩
+    match avoidCollisions st.shapes box cb false with
     | .error e => .error e
-    | .ok p => .ok (shapes, p.y + h, .replaced (p.x + ml) p.y w h)
+    | .ok p => .ok (⟨st.shapes, p.y + h, [0]⟩, .replaced (p.x + ml) p.y w h)
 
-def flow (cb : CB) : List Shape → Rat → List Item → Except PyErr (List Placed)
-  | _, _, [] => .ok []
-  | shapes, y, it :: rest =>
-    match flowStep cb shapes y it with
+def flowFrom (cb : CB) : FlowState → List Item → Except PyErr (List Placed)
+  | _, [] => .ok []
+  | st, it :: rest =>
+    match flowStep cb st it with
     | .error e => .error e
-    | .ok (shapes', y', pl) =>
-      match flow cb shapes' y' rest with
+    | .ok (st', pl) =>
+      match flowFrom cb st' rest with
       | .error e => .error e
       | .ok out => .ok (pl :: out)
+
+def flow (cb : CB) (shapes : List Shape) (y : Rat) (items : List Item) : Except PyErr (List Placed) :=
+  flowFrom cb ⟨shapes, y, []⟩ items
 
 end Wp.Floats
